@@ -111,6 +111,14 @@ def check_blocked_quit(run, case, tier='quick'):
                 run.violation(f'status / help requests typed on a terminal while the generator was blocked changed stdout ({out.count(10)} lines of {ref.count(10)}; lines that are no guesses: {foreign})',
                               case, observed=foreign); return
             run.ev('typed_requests_while_blocked_left_the_stream_intact')
+        # end of input on the terminal (CTRL-D at the start of a line) is a standard-input condition, not a request to quit
+        out, err, rc, to, info = cli.run_cli_blocked('pcfg_guesser.py', ['-r', name, '-s', sn + 'eof'], [b'\x04'], settle=0.5, use_pty=True)
+        run.ev('cli_runs'); run.ev('blocked_cli_runs'); run.add_to_set('stdin_conditions', 'pty CTRL-D while blocked')
+        if not to and info['blocked']:
+            if out != ref:
+                run.violation(f'end of input typed on a terminal (CTRL-D) while the generator was blocked changed stdout ({out.count(10)} lines of {ref.count(10)})', case,
+                              observed={'stderr_tail': err[-200:].decode('utf-8', 'replace')}); return
+            run.ev('terminal_eof_left_the_stream_intact')
         run.sample({'cli': 'pcfg_guesser.py (stdout back-pressure)', 'stream_bytes': len(ref), 'largest_preterminal_bytes': maxpt, 'requests': [repr(c) for c in reqs]})
     finally:
         for f in os.listdir(repo.scratch()):
